@@ -2675,6 +2675,11 @@ class op(object):
         x.value = sol['x']
         inequalities[0].multiplier.value = sol['z']
         if equalities: equalities[0].multiplier.value = sol['y']
+        if sol['status'] == 'unknown':
+            # the problem was not solved: no values are returned 
+            x.value = None
+            inequalities[0].multiplier.value = None
+            if equalities: equalities[0].multiplier.value = None
 
         self.status = sol['status']
         if type(t) is tuple:
